@@ -307,6 +307,77 @@ META = {
         detected_by={"C20": "density_equals_clipped_reference, density_finite_nonnegative_in_disk"},
         strengthening="negative grid means are no longer skipped as degenerate; small weights (0.01-0.3) and single-datum sets added",
     ),
+    "C01c": dict(
+        summary="LSODA keyword arguments built by a helper with a mutable default dict into which the caller's kwargs are merged: solver options passed once leak into every later call of any Mineral",
+        needs="two steps in one process: a call with loose user options (atol=0.1, rtol=0.1 preview), then any call relying on the defaults (orthonormality error 0.08-0.11 vs bound 0.015)",
+        detected_before_strengthening=False,
+        detected_by={"C01": "snapshot_valid/orthonormal on the fixed first history of every shard, which is preceded by a loose-tolerance preview on a throwaway mineral",
+                     "C08": "c:interleaving_bit_identical (interleaved minerals use other solver options)"},
+        strengthening="loose preview before monitored runs; interleaved minerals driven with different solver options; shards flush partial results so that a later hang (leaked max_step) cannot hide recorded violations",
+    ),
+    "C02c": dict(
+        summary="two cooperating edits: CRSS array hoisted out of the grain loop, and the olivine branch masks crss[i] = inf for every system whose invariant is exactly 0 -- the mask persists for all later grains of the call",
+        needs="one derivatives call with n >= 2 where an axis-aligned grain (some, not all, invariants exactly 0) precedes a grain resolving shear on a masked system",
+        detected_before_strengthening=True,
+        detected_by={"C02": "rotation_rate_equals_reference / volume_rate_equals_reference on 'mixed' and 'aligned' textures with coordinate-aligned flows"},
+        strengthening=None,
+    ),
+    "C03c": dict(
+        summary="rotation rates accumulated with += into an `out` argument; the frictional_yielding branch reuses one never-re-zeroed scratch buffer for all grains",
+        needs="regime frictional_yielding, n_grains >= 2, generic orientations (grain k gets 0.3 * sum_{j<=k} R_j W_j)",
+        detected_before_strengthening=True,
+        detected_by={"C03": "spin_skew[direct] / [in-solver]", "C02": "rotation_rate_equals_reference (regime 6)"},
+        strengthening=None,
+    ),
+    "C04c": dict(
+        summary="same family as C03c (running sum of rotation rates in the frictional branch), found independently for C04",
+        needs="regime frictional_yielding, >= 2 grains; for rates a symmetry flip on a proper subset of grains, for textures any frame rotation",
+        detected_before_strengthening=True,
+        detected_by={"C04": "rate:twofold, int-rot:textures_related", "C03": "spin_skew"},
+        strengthening=None,
+    ),
+    "C05c": dict(
+        summary="update_orientations decides once per call whether the texture is static (self.regime in the null regimes) and then uses a unit strain-rate scale; the flag goes stale when get_regime switches during the call",
+        needs="a get_regime callback, Mineral.regime a null regime at the start of the call (static attribute or left over from the previous call), the callback returning a dislocation regime, M* > 0, k != 1",
+        detected_before_strengthening=False,
+        detected_by={"C05": "rescale:* on histories whose static regime attribute is a null regime while the callback reports dislocation creep"},
+        strengthening="with callback delivery the static attribute is now any other accepted regime, including the null ones",
+    ),
+    "C06c": dict(
+        summary="'steady flow' shortcut: L sampled at the start, midpoint and end of the interval; if the three samples are bitwise equal eval_rhs uses the frozen matrix",
+        needs="L identical at those three times while varying in between (particle crossing a compact shear zone, periodic L over whole periods, an on/off pulse)",
+        detected_before_strengthening=False,
+        detected_by={"C06": "F_equals_reference on pulsed fields (the defect model of known finding K10 -- capped solver step -- does not explain it)"},
+        strengthening="new field class 'pulsed' (exactly zero variation at the start, midpoint and end of every update interval); this class also exposed known finding K10",
+    ),
+    "C07c": dict(
+        summary="derivatives split into a wrapper plus derivatives_into(out...) called with per-mineral work arrays; the null-regime branches do nothing, so stale dislocation rates are returned after any texture-forming evaluation",
+        needs="the same Mineral object first evaluated in a texture-forming regime, then updated in min/max_viscosity (attribute assignment or get_regime switch)",
+        detected_before_strengthening=True,
+        detected_by={"C07": "texture_unchanged[after_switch_to_null] (sub-oracle added after round 1)"},
+        strengthening=None,
+    ),
+    "C08c": dict(
+        summary="class-level dict Mineral._solver_defaults merged in place with the caller's kwargs: rtol / min_step / max_step of one call persist for every later call of any mineral",
+        needs="an update with a non-default solver option followed by an update of another (or the same) mineral without it",
+        detected_before_strengthening=False,
+        detected_by={"C08": "c:interleaving_bit_identical (interleaved minerals use other solver options)"},
+        strengthening="interleaved minerals in C08 (c) are driven with different solver options than the mineral under comparison",
+    ),
+    "C09c": dict(
+        summary="perform_step applies apply_gbs in place on raw views of solver.y instead of on extract_vars output: negative integrated fractions are no longer clipped before the sliding mask is computed",
+        needs="gbs_threshold exactly 0 and enough migration that shrinking grains undershoot to small negative volumes at the last solver step",
+        detected_before_strengthening=True,
+        detected_by={"C09": "call:chi0_nothing_frozen, hist:chi0_no_grain_frozen_or_floored, hist:stored_is_last_gbs_output"},
+        strengthening=None,
+    ),
+    "C10c": dict(
+        summary="two cooperating edits in voigt_averages: per-mineral tensor/fraction lookups hoisted in listing order, then minerals sorted by phase before the loop that zips both",
+        needs="two minerals of different phases listed as [enstatite, olivine] with different textures or unequal fractions (K and G stay right)",
+        detected_before_strengthening=True,
+        detected_by={"C10": "order_independent, equals_reference_average (minerals lists in both orders)"},
+        strengthening=None,
+    ),
 }
 
 
